@@ -27,7 +27,8 @@ RULE = ("gen(seed): index walks the product version{1.0,1.1} x Connection value 
         "Close, keep-alive, Keep-Alive, 'close, TE', 'TE, close', upgrade, TE) x method "
         "{GET,HEAD,POST,PUT} x request body framing {none,CL,chunked} x no_keep_alive x handler "
         "{buffered, stream/end, stream/prepare, stream/data} x response {buffered, streamed} x second "
-        "request {together, split, after}; the rng adds segmentation, client window, slow-reader "
+        "request {together, split, after}; the rng adds the response status (200, explicit 204/304, "
+        "304 by automatic ETag match on a conditional GET/HEAD), segmentation, client window, slow-reader "
         "schedule, handler sleep, send_cap/recv_cap/delay/defer tapes. non-trivial = the first "
         "response was parsed AND a second request was put on the wire AND (>=2 request segments "
         "or a partial send / short read fired or the response was streamed) - measured; "
@@ -132,7 +133,13 @@ def gen(rng, tier, index):
             body_n = rng.choice([1000, 3000])
     req = {"method": method, "version": version, "conn": conn, "framing": framing,
            "body_n": body_n, "chunks": chunks}
-    head, rb = _request_bytes(req)
+    # response status: 200, an explicit 204 / 304 (no body), or "etag" = conditional GET/HEAD
+    # whose If-None-Match matches the automatic ETag, which finish() answers with 304
+    status = rng.choice([200, 200, 200, 204, 204, 304, "etag", "etag"])
+    if status == "etag" and (method not in ("GET", "HEAD") or resp != "buffered"):
+        status = rng.choice([200, 204, 304])
+    hspec0 = {"status": status, "resp_n": resp_n}
+    head, rb = _request_bytes(req, hspec0)
     total = len(head) + len(rb) + (len(SECOND_REQ) if second == "together" else 0)
     mode = rng.random()
     cuts = []
@@ -172,6 +179,7 @@ def gen(rng, tier, index):
         "knobs": {"no_keep_alive": nka, "window": window},
         "req": req,
         "handler": {"kind": hkind, "finish_at": finish_at, "resp": resp, "resp_n": resp_n,
+                    "status": status,
                     "sleep": rng.choice([0, 0, 1, 2, 5]),
                     "flush_wait": rng.random() < 0.6},
         "second": second, "split_gap": rng.choice([0, 1, 1, 2, 4]),
@@ -180,9 +188,18 @@ def gen(rng, tier, index):
     }
 
 
-def _request_bytes(req):
+def _etag_of(hspec):
+    """The ETag RequestHandler.finish() computes for the buffered response body."""
+    import hashlib
+    body = b"B:" + fill(max(0, int(hspec.get("resp_n", 0))), 3)
+    return '"%s"' % hashlib.sha1(body).hexdigest()
+
+
+def _request_bytes(req, hspec=None):
     method, version, conn = req["method"], req["version"], req.get("conn")
     hs = [("Host", "h")]
+    if hspec is not None and hspec.get("status") == "etag":
+        hs.append(("If-None-Match", _etag_of(hspec)))
     toks = _tokens(conn)
     if conn:
         hs.append(("Connection", conn))
@@ -219,6 +236,7 @@ def simplify(scn):
              alt(("req", "conn"), None), alt(("req", "chunks"), []),
              alt(("handler", "resp"), "buffered"), alt(("handler", "kind"), "buffered"),
              alt(("handler", "flush_wait"), False), alt(("second",), "after"),
+             alt(("handler", "status"), 200),
              alt(("cuts",), []), alt(("gaps",), [])]
     conn = scn["req"].get("conn")
     if conn:
@@ -260,6 +278,11 @@ def validate(scn):
             return False
         if not (0 <= int(h.get("sleep", 0)) <= 64 and 0 <= int(h.get("resp_n", 0)) <= 5000):
             return False
+        if h.get("status", 200) not in (200, 204, 304, "etag"):
+            return False
+        if h.get("status") == "etag" and (req["method"] not in ("GET", "HEAD")
+                                          or h["resp"] != "buffered"):
+            return False
         if not (0 <= int(scn.get("split_gap", 0)) <= 64 and 0 <= int(scn.get("after_grace", 0)) <= 64):
             return False
         rd = scn.get("reader") or {}
@@ -289,6 +312,7 @@ def make_app(env, hspec, trace, rapp_box):
     sleep_u = int(hspec.get("sleep", 0))
     finish_at = hspec.get("finish_at", "end")
     flush_wait = bool(hspec.get("flush_wait", True))
+    status = hspec.get("status", 200)
 
     async def respond(h):
         if h._finished or trace["responding"]:
@@ -299,7 +323,17 @@ def make_app(env, hspec, trace, rapp_box):
         trace["body_read_at_finish"] = bool(rec is not None and "F" in rec.events)
         trace["data_seen_at_finish"] = trace["data_bytes"]
         log.ev("respond", finish_at, trace["body_read_at_finish"])
-        if streamed:
+        if status in (204, 304):
+            # a response that cannot have a body: status line + headers only
+            h.set_status(status)
+            if streamed:
+                f = h.flush()
+                if flush_wait:
+                    await f
+            if sleep_u:
+                await gen.sleep(sleep_u * UNIT)
+            h.finish()
+        elif streamed:
             half = len(body) // 2
             h.write(b"S:" + body[:half])
             f = h.flush()
@@ -368,7 +402,7 @@ def run(scn, full_log=False):
     def probe(name, n=1):
         probes[name] = probes.get(name, 0) + n
 
-    head, rb = _request_bytes(req)
+    head, rb = _request_bytes(req, hspec)
     data = head + rb
     if second == "together":
         data += SECOND_REQ
@@ -509,6 +543,10 @@ def _judge(scn, res, trace, bad, probe):
     second_reached = any(r[1] == "/two" and r[2] for r in recs)
     probe("keep_expected" if keep else "close_expected")
     probe("delim_" + str(r1.delim))
+    if r1.code in (204, 304):
+        probe("status_%d" % r1.code + ("_etag" if hspec.get("status") == "etag" else ""))
+        if keep:
+            probe("keep_expected_after_bodyless_%d" % r1.code)
     if why:
         probe("why_" + why.split("/")[0])
     if res["rst"]:
